@@ -103,14 +103,38 @@ theorem TInv.init : TInv P.init where
 theorem TInv.thread {p : P} (h : TInv p) {t : Nat} {th : Thread} (ht : p.threads[t]? = some th) :
     ThreadInv p.gb th := h.threads th (List.mem_of_getElem? ht)
 
+theorem ThreadInv.withProcess {g : GB} {th old : Thread} (h : ThreadInv g th) (ho : ThreadInv g old) :
+    ThreadInv g { th with process := old.process } := by
+  obtain ⟨a1, a2, a3, a4, a5, a6, a7, a8, _, a10⟩ := h
+  exact ⟨a1, a2, a3, a4, a5, a6, a7, a8, ho.2.2.2.2.2.2.2.2.1, a10⟩
+
+theorem List.mem_modify {α : Type} (l : List α) (i : Nat) (f : α → α) (x : α) (h : x ∈ l.modify i f) :
+    x ∈ l ∨ ∃ y ∈ l, x = f y := by
+  induction l generalizing i with
+  | nil => simp at h
+  | cons a as ih =>
+    cases i with
+    | zero =>
+      simp only [List.modify_zero_cons, List.mem_cons] at h
+      rcases h with rfl | h
+      · exact Or.inr ⟨a, List.mem_cons_self, rfl⟩
+      · exact Or.inl (List.mem_cons_of_mem _ h)
+    | succ i =>
+      simp only [List.modify_succ_cons, List.mem_cons] at h
+      rcases h with rfl | h
+      · exact Or.inl List.mem_cons_self
+      · rcases ih i h with h | ⟨y, hy, rfl⟩
+        · exact Or.inl (List.mem_cons_of_mem _ h)
+        · exact Or.inr ⟨y, List.mem_cons_of_mem _ hy, rfl⟩
+
 /-- replacing one thread by a thread that satisfies the thread invariant -/
 theorem TInv.setThread {p : P} (h : TInv p) (t : Nat) (th' : Thread) (h' : ThreadInv p.gb th') :
     TInv (p.setThread t th') := by
   refine ⟨h.libs, h.gstr, ?_, h.subsPos, h.catsPos, h.schemaCats, h.statics, h.maps, h.counters, ?_, ?_⟩
   · intro x hx
-    rcases List.mem_or_eq_of_mem_set hx with hx | rfl
+    rcases List.mem_modify _ _ _ _ hx with hx | ⟨y, hy, rfl⟩
     · exact h.threads x hx
-    · exact h'
+    · exact h'.withProcess (h.threads y hy)
   · simpa [P.setThread] using h.visible
   · simpa [P.setThread] using h.selected
 
